@@ -131,6 +131,13 @@ def check_input(seed, tier, acc, nvar):
                 if v['cwd'] == 'rel':
                     cwd = wd
                     cmd = script_cmd(kind, os.path.relpath(src, wd), os.path.relpath(out, wd), os.path.relpath(tpl, wd))
+                elif vi % 3 == 2:
+                    # the inputs reached through a symbolic link to their directory
+                    link = os.path.join(root, 'link%d_%s' % (vi, kind))
+                    os.symlink(os.path.dirname(src), link)
+                    cwd = root
+                    cmd = script_cmd(kind, os.path.join(link, 'mod.i'), out, os.path.join(link, 'tpl.tpl'))
+                    acc.count('var:inputs_through_symlink')
                 else:
                     cwd = root
                     cmd = script_cmd(kind, src, out, tpl)
